@@ -877,9 +877,15 @@ func (w *W) c08(groups [][]*driver.Bound) {
 							if long && chunk == driver.OptOne {
 								continue
 							}
-							for ei, e := range []error{errIO, io.EOF, errIO} {
+							for ei, e := range []error{errIO, io.EOF, errIO, errIO} {
 								cr := driver.NewChunkReader(want)
 								cr.FailAt, cr.FailErr, cr.FailStyle = k, e, style
+								if ei == 3 && style == 1 {
+									// an error handed over together with ALL the bytes asked for is dropped by io.ReadFull by design; a
+									// reader that then carries on has not failed in any observable way: transient faults are (0, err) only
+									continue
+								}
+								cr.Transient = ei == 3 // the reader fails once and then carries on: still a failed read
 								chunk := chunk
 								cr.Choose = func(opts []int) int {
 									for i, o := range opts {
@@ -905,6 +911,7 @@ func (w *W) c08(groups [][]*driver.Bound) {
 									m["style"] = []string{"(0,err)", "(n,err)"}[style]
 									m["chunking"] = []string{"full", "one-byte"}[chunk]
 									m["reader_offers_ReadByte"] = ei == 2
+									m["transient_failure"] = ei == 3
 									return m
 								}
 								if cr.Faulted {
@@ -919,7 +926,7 @@ func (w *W) c08(groups [][]*driver.Bound) {
 								}
 								if o.Alloc > allocBudget(len(want)) && driver.PreciseAlloc(func() {
 									cr2 := driver.NewChunkReader(want)
-									cr2.FailAt, cr2.FailErr, cr2.FailStyle, cr2.Choose = k, e, style, cr.Choose
+									cr2.FailAt, cr2.FailErr, cr2.FailStyle, cr2.Choose, cr2.Transient = k, e, style, cr.Choose, ei == 3
 									b.New().DecodeBebop(cr2)
 								}) > allocBudget(len(want)) {
 									w.report(fmt.Sprintf("C08|decode|alloc|%s", b.Case.Class), fmt.Sprintf("DecodeBebop allocated %d bytes for a %d-byte stream failing at byte %d", o.Alloc, len(want), k), ci())
